@@ -404,7 +404,13 @@ def run_stream(stream, variant="hu", prop="-", san=None, twin=False, env_extra=N
         p = os.path.join(wd, "shard%d.script" % i)
         streams.write_stream(p, sh_)
         jobs.append((harness, driver, flavor, prop, p, twin, env_extra))
-    out = {"div": [], "mon": [], "badgen": [], "crash": [], "stat": {}, "driverfail": []}
+    distinct = set()
+    for _, lines in stream:
+        for l in lines:
+            t = l.split(None, 2)
+            if len(t) >= 2 and t[1] in ("P", "S"):
+                distinct.add(l.split(None, 1)[1])
+    out = {"div": [], "mon": [], "badgen": [], "crash": [], "stat": {}, "driverfail": [], "distinct_calls": distinct}
     with cf.ThreadPoolExecutor(max_workers=NCPU) as ex:
         for r in ex.map(run_shard, jobs):
             if r["harness_rc"] != 0:
@@ -580,6 +586,7 @@ def check_property(prop, tier, seed):
             violations.append({"kind": "build", "detail": "%s: %s" % (ex.stage, ex.detail), "found_input": False})
     # results: list of dicts from propstreams: {"name", "stream", "variant", "observer", "twin", "san", "out", "extra_violations"}
     evaluations = 0
+    distinct_calls = set()
     observed = 0
     twins = 0
     divs = 0
@@ -601,6 +608,7 @@ def check_property(prop, tier, seed):
                     cov[k] = v
             continue
         st = out["stat"]
+        distinct_calls |= out.get("distinct_calls", set())
         evaluations += st.get("ops", 0)
         observed += st.get("observed", 0)
         twins += st.get("twins", 0)
@@ -714,10 +722,14 @@ def check_property(prop, tier, seed):
         "checker_cmd": "coqc (full .vo build via coq_makefile: make Properties_%s.vo) against coq/Gen.v regenerated from %s" % (prop, REPO),
         "trusted_base": COMMON_TRUSTED + spec.get("trusted", []),
         "evaluations": evaluations,
-        "distinct_nontrivial": observed + twins,
-        "rule": "evaluations = API calls executed on the compiled library and on the extracted model; distinct_nontrivial = calls on which "
-                "the property's extracted observer was evaluated on the implementation's before/after snapshots and callback log, plus twin-run "
-                "assertions (relational properties); scripts are generated per family from VERIF_SEED",
+        "distinct_nontrivial": len(distinct_calls) if distinct_calls else observed + twins,
+        "observer_evaluations": observed,
+        "twin_assertions": twins,
+        "rule": "evaluations = API calls executed on the compiled library and on the extracted model; distinct_nontrivial = number of "
+                "DISTINCT parse calls (distinct (blocks, error codes) / distinct strings, counted over all scripts of this run) on which the "
+                "property's extracted observer or twin assertion was evaluated against the implementation; observer_evaluations and "
+                "twin_assertions count the evaluations themselves (the same call in different states counts each time); scripts are generated "
+                "per family from VERIF_SEED; for C18/C19/C20 families without scripts the family's own count is used",
         "traces_validated_against_impl": sum(f.get("scripts", 0) for f in families.values()),
         "model_impl_divergences": divs,
         "foreign_divergences": foreign,
